@@ -385,3 +385,65 @@ func flagClosureName(c *Ctx, fn *ssa.Function) string {
 	}
 	return SSAName(fn)
 }
+
+// c17NoFailureAsData (R17.18): a failed statement does not become a value.
+func c17NoFailureAsData(c *Ctx, r *Report) {
+	r.Rule("R17.18", "a failed statement does not become data: in the interpreter, the error result of executing a statement block (StatementBlockNode.Execute / ExecuteFrameless, or an IExecutable.Execute) never flows into mlrval.FromError — a statement that fails at run time ends the run with a message wherever it stands; turned into an (error) value inside a function body it would let the run go on and exit 0")
+	n := 0
+	for _, fn := range c.ModuleFunctions() {
+		if fn.Blocks == nil || fn.Pkg == nil || !strings.HasSuffix(fn.Pkg.Pkg.Path(), "/pkg/dsl/cst") {
+			continue
+		}
+		idx := 0
+		for _, b := range fn.Blocks {
+			for _, in := range b.Instrs {
+				call, ok := in.(*ssa.Call)
+				if !ok {
+					continue
+				}
+				isExec := false
+				if call.Call.IsInvoke() {
+					isExec = call.Call.Method.Name() == "Execute"
+				} else {
+					cn := CalleeName(&call.Call)
+					isExec = strings.HasSuffix(cn, "StatementBlockNode.Execute") || strings.HasSuffix(cn, "StatementBlockNode.ExecuteFrameless")
+				}
+				if !isExec {
+					continue
+				}
+				ev := ErrValueOf(call)
+				if ev == nil {
+					continue
+				}
+				n++
+				bad := ""
+				var follow func(v ssa.Value, depth int)
+				follow = func(v ssa.Value, depth int) {
+					if depth > 4 || v.Referrers() == nil || bad != "" {
+						return
+					}
+					for _, ref := range *v.Referrers() {
+						switch x := ref.(type) {
+						case *ssa.Call:
+							if strings.HasSuffix(CalleeName(&x.Call), "pkg/mlrval.FromError") {
+								bad = c.Rel(x.Pos())
+							}
+						case *ssa.Phi:
+							follow(x, depth+1)
+						case *ssa.MakeInterface:
+							follow(x, depth+1)
+						}
+					}
+				}
+				follow(ev, 0)
+				if bad != "" {
+					idx++
+					r.Fail("R17.18", fmt.Sprintf("%s: execution error turned into a value #%d", SSAName(fn), idx), bad,
+						fmt.Sprintf("%s passes the error of executing a statement block to mlrval.FromError at %s: the failed statement becomes an (error) value, the run goes on and can exit 0 with nothing on stderr", SSAName(fn), bad))
+				}
+			}
+		}
+	}
+	r.OK("R17.18", "executions of statement blocks in the interpreter", "", fmt.Sprintf("%d execution sites examined", n))
+	r.Floor("R17.18", "executions of statement blocks", n, 20)
+}
